@@ -94,6 +94,25 @@ def num_value(t) -> Decimal:
     return Decimal(t[1]).scaleb(t[2])
 
 
+def sig_digits(d: Decimal) -> int:
+    return len("".join(map(str, d.as_tuple().digits)).strip("0")) or 1
+
+
+def double_decimal(d: Decimal) -> Decimal:
+    """The shortest decimal that denotes the same double as d (what 'the stored double' means as text)."""
+    return Decimal(repr(float(d)))
+
+
+def canon_num(t) -> Decimal:
+    """The number a NUMBER node denotes. A node stored with a decimal exponent is rendered from its
+    double; when its decimal has more than 15 significant digits the double is the stored literal,
+    so such a node denotes exactly that double (any text with float(text) == double is right)."""
+    v = num_value(t)
+    if t[2] != 0 and sig_digits(v) > 15:
+        return double_decimal(v)
+    return v
+
+
 def to_nodes(t, out=None, deco=False):
     """Serialise a tree to the list of ASTNodeArchive messages (post-fix order).
 
@@ -194,7 +213,7 @@ def canon(t, host):
     DATE(y,m,d) of three plain numbers is the same thing as a date literal."""
     k = t[0]
     if k == "num":
-        return ("num", num_value(t))
+        return ("num", canon_num(t))
     if k == "str":
         return ("str", t[1])
     if k == "bool":
@@ -257,7 +276,10 @@ def tokenize(s):
         kind = m.lastgroup
         v = m.group(kind)
         if kind == "num":
-            out.append(("num", Decimal(v)))
+            d = Decimal(v)
+            if sig_digits(d) > 15 and d != d.to_integral_value():
+                d = double_decimal(d)  # compared as the double the text denotes
+            out.append(("num", d))
         elif kind == "str":
             out.append(("str", v[1:-1].replace('""', '"')))
         elif kind == "bool":
@@ -622,6 +644,11 @@ def leaf_alphabet(seed=0):
         ("big-3digit", ("num", *pick((125, 20), (101, 14), (999, 19)))),       # known defect class
         ("big-15digit", ("num", *pick((100000000000001, 7), (123456789012345, 2), (999999999999999, 9)))),
         ("big-trailing-zero-mantissa", ("num", *pick((100000000000000, 7), (1000, 18), (150, 20)))),
+        # doubles that need 16 / 17 significant digits (decimal == shortest repr of the double)
+        ("frac-16digit", ("num", *pick((3333333333333333, -16), (3141592653589793, -15), (6666666666666666, -16)))),
+        ("frac-17digit", ("num", *pick((30000000000000004, -17), (12345678912345678, -8), (10000000000000002, -16)))),
+        ("small-17digit", ("num", *pick((33333333333333334, -24), (12345678901234568, -21), (14285714285714286, -22)))),
+        ("int-16digit-stored-with-exponent", ("num", *pick((12345678901234560, -1), (90071992547409910, -1), (11111111111111110, -1)))),
         ("str-plain", ("str", pick("s", "word", "Z9"))),
         ("str-empty", ("str", "")),
         ("str-quote", ("str", pick('q"t', '"lead', 'trail"'))),
@@ -640,7 +667,53 @@ def leaf_alphabet(seed=0):
         ("ref-absrow", ("ref", pick(2, 0, 5), pick(-1, 1, 0), True, False)),
         ("ref-abscol", ("ref", pick(0, 2, -1), pick(3, 26, 0), False, True)),
     ]
+    for cls, leaf in out:
+        if leaf[0] == "num" and leaf[2] != 0 and sig_digits(num_value(leaf)) > 15:
+            assert double_decimal(num_value(leaf)) == num_value(leaf), (cls, leaf)  # representative is a shortest repr
     return out
+
+
+NESTED_SUBOPS_QUICK = ["+", "×", "="]
+
+
+def nested_count(tier):
+    n = len(BINOPS) if tier == "thorough" else len(NESTED_SUBOPS_QUICK)
+    return (2 * len(BINOPS) + 3) * len(BINOPS) * (n + 3) * (n + 2)
+
+
+def _gen_nested(tier, seed, base):
+    """'Nested groups': outer context x LIST( left <inner op> right ) where left / right are
+    themselves bracketed groups, calls or leaves - every combination, distinct leaves."""
+    subops = BINOPS if tier == "thorough" else NESTED_SUBOPS_QUICK
+    f0, f1, f2, f3 = _fn_reps(seed)
+    g1 = _fn_reps(seed + 1)[1]
+    lefts = [("grp", op) for op in subops] + [("call1", f1), ("call0", f0), ("leaf", None)]
+    rights = [("grp", op) for op in subops] + [("call1", g1), ("leaf", None)]
+    contexts = [("bin", op, side) for op in BINOPS for side in (0, 1)] + [("neg",), ("pct",), ("fnarg",)]
+
+    def mk(spec, lv):
+        kind, x = spec
+        if kind == "grp":
+            return ("list", (("bin", x, next(lv), next(lv)),))
+        if kind == "call1":
+            return ("fn", x, (next(lv),))
+        if kind == "call0":
+            return ("fn", x, ())
+        return next(lv)
+
+    for ctx in contexts:
+        for inner in BINOPS:
+            for lspec in lefts:
+                for rspec in rights:
+                    lv = int_leaves(base)
+                    body = ("list", (("bin", inner, mk(lspec, lv), mk(rspec, lv)),))
+                    if ctx[0] == "bin":
+                        other = next(lv)
+                        yield ("bin", ctx[1], body, other) if ctx[2] == 0 else ("bin", ctx[1], other, body)
+                    elif ctx[0] == "fnarg":
+                        yield ("fn", f2, (body, next(lv)))
+                    else:
+                        yield (ctx[0], body)
 
 
 def _slot_contexts(ks):
@@ -660,7 +733,7 @@ BOUNDS = {
     "thorough": dict(max_internal=3, reduced_internal=4, deep_internal=4, fn_arity=4, arr_max=4),
 }
 
-GROUPS = ["leaves", "trees", "trees-reduced", "decorated", "functions", "arrays", "hosts"]
+GROUPS = ["leaves", "trees", "trees-reduced", "nested", "decorated", "functions", "arrays", "hosts"]
 DEEP_GROUP = "trees-deep"  # thorough only: every tree with exactly deep_internal nodes, full alphabet (3.06e6)
 ALL_GROUPS = GROUPS + [DEEP_GROUP]
 
@@ -692,6 +765,9 @@ def gen_group(group, tier, seed=0, sub=None):
                 children = [leaf if s == slot else next(others) for s in range(by_name[name][1])]
                 yield by_name[name][2](children), False
         # empty arguments are leaves too, but only exist as function arguments (functions group)
+    elif group == "nested":
+        for t in _gen_nested(tier, seed, base):
+            yield t, False
     elif group == "trees":
         for n in range(1, b["max_internal"] + 1):
             for sh in shapes(n, ks):
